@@ -117,7 +117,7 @@ class Out:
 
 
 def keepval(v):
-    return v in TRACK or (isinstance(v, str) and v[:2] in ("M:", "K:", "E:"))
+    return v in TRACK or (isinstance(v, str) and v[:2] in ("M:", "K:", "E:", "O:"))
 
 
 class Config:
@@ -153,8 +153,9 @@ def is_skip_helper(fn):
 class Interp:
     """Analysis of one Config, entered at <parser>.parse."""
 
-    def __init__(self, repo, cfg, lexer_escapes=()):
+    def __init__(self, repo, cfg, lexer_escapes=(), triaged_keys=()):
         self.repo, self.cfg = repo, cfg
+        self.triaged_keys = set(triaged_keys)
         self.lat = ExcLattice(repo)
         self.lexer_escapes = tuple(lexer_escapes)   # (exc, origin) escaping the lexer besides LexerError
         self.summ = {}
@@ -268,6 +269,12 @@ class Interp:
                 st0 = st0.set(pname, v)
         if selfkind == "token":
             st0 = st0.set("self", "TOKEN")
+        # parameters whose default is an instance of a decoder class are decoder objects
+        nd = len(fn.args.defaults)
+        for a, dflt in zip(fn.args.args[len(fn.args.args) - nd:], fn.args.defaults):
+            if isinstance(dflt, ast.Call) and isinstance(dflt.func, ast.Name) and self.repo.has_cls(dflt.func.id) \
+                    and self.repo.has_cls("PVLDecoder") and "PVLDecoder" in self.repo.mro(dflt.func.id) and not st0.get(a.arg):
+                st0 = st0.set(a.arg, "O:decoder")
         out = self.block(fn.body, {st0})
         ex = set()
         for s in list(out.normal) + [x for (_, x) in out.returns]:
@@ -293,10 +300,19 @@ class Interp:
         defcls, fn = self.repo.resolve_method(self.cfg.parser, entry)
         if fn is None:
             raise AnalysisError(f"anchor vanished: {self.cfg.parser}.{entry}")
+        lexfn = self.repo.module("lexer").functions.get("lexer")
+        if lexfn is None:
+            raise AnalysisError("anchor vanished: pvl/lexer.py:lexer")
+        lexfn._module = "lexer"
         for rounds in range(40):
             self.changed = False
             self.done = set()
             self.findings.clear()
+            lex = self.summary(None, None, lexfn, "NA", False, ())
+            self.lexer_exits = lex
+            self.lexer_escapes = tuple(sorted(
+                {(x[7], x[8]) for x in lex if x[0] == "raise" and x[7] != "LexerError"
+                 and t3_key(x[7], x[8]) not in self.triaged_keys}))
             res = self.summary("parser", defcls, fn, "FRESH", False, ())
             if not self.changed:
                 self.rounds = rounds + 1
@@ -892,6 +908,10 @@ class Interp:
                 return None
             if isinstance(v, ast.Name):
                 val = st.get(v.id)
+                if val == "O:decoder":
+                    c, fn = repo.resolve_method(self.clsof("decoder"), f.attr)
+                    if fn is not None:
+                        return ("decoder", c, fn)
                 if val == "TOKEN" and repo.has_cls("Token"):
                     c, fn = repo.resolve_method("Token", f.attr)
                     if fn is not None:
@@ -1069,6 +1089,11 @@ class Interp:
         if isinstance(p, ast.keyword):
             return True
         return False
+
+
+def t3_key(exc, origin):
+    fn, _, anchor = origin.partition(" `")
+    return f"T3|{fn}|{exc} from {anchor.rstrip('`')}"
 
 
 def configs_from_repo(repo):
